@@ -80,9 +80,9 @@ Definition crate_ctlname : aexp :=
 
 (* tag syntax of cddl.pest:  "#" DIGIT ("." tag_value)? ("(" S type S ")")?  |  "#" ("(" S type S ")")?
    ws = with the implicit skips, general = for every digit (otherwise the RFC forms) *)
-Definition tag_forms (ws general : bool) : list aexp :=
+Definition tag_forms (tyh : aexp) (ws general : bool) : list aexp :=      (* tyh: the type inside "<" ">" *)
   let s := if ws then S_ else AEps in
-  let tv := AAlts [R n_uint; ASeqs [L "<"; s; R n_type; s; L ">"]] in
+  let tv := AAlts [R n_uint; ASeqs [L "<"; s; tyh; s; L ">"]] in
   let par := ASeqs [L "("; S_; R n_type; S_; L ")"] in
   if general then
     [ASeqs [L "#"; s; R n_DIGIT; AOpt (ASeqs [s; L "."; s; tv]); AOpt (ASeqs [s; par])];
@@ -117,9 +117,21 @@ Definition paren_aux : cfg :=
                  ASeqs [L "("; S_; R n_type; S_; L ")"];
                  ASeqs [L "("; S_; R n_tB; S_; L ")"; R n_K]])].
 
-Definition variant (m : N) : cfg :=
-  if m =? 0 then abnf_spec else
-  let g0 := abnf_spec in
+(* a disjoint copy of a grammar: every rule name n becomes n + off *)
+Fixpoint rename (off : N) (e : aexp) : aexp :=
+  match e with
+  | ARef n => ARef (n + off)
+  | ASeq a b => ASeq (rename off a) (rename off b)
+  | AAlt a b => AAlt (rename off a) (rename off b)
+  | AStar a => AStar (rename off a)
+  | _ => e
+  end.
+Definition rename_cfg (off : N) (g : cfg) : cfg := map (fun p => (fst p + off, rename off (snd p))) g.
+Definition unconverted : N := 1000.
+
+(* every deviation except the byte-string member key; tyh = the type inside the "<" ">" of a non-literal tag number *)
+Definition variant_core (m : N) (tyh : aexp) : cfg :=
+  let g0 := override n_headnumber [AAlts [R n_uint; ASeqs [L "<"; tyh; L ">"]]] abnf_spec in
   (* identifiers *)
   let runs := negb (bit m d_id_runs) in
   let g1 := override n_id [id_body (R n_EALPHA) runs] g0 ++ [(n_idns, id_body ealpha_start runs)] in
@@ -141,9 +153,9 @@ Definition variant (m : N) : cfg :=
            [ASeqs [R n_notbytes; R n_typename; S_; R n_genericarg];
             ASeqs [L "~"; S_; R n_typename; S_; R n_genericarg];
             ASeqs [L "&"; S_; R n_groupname; S_; R n_genericarg]]
-           ++ tag_forms true (bit m d_tag_forms)
+           ++ tag_forms tyh true (bit m d_tag_forms)
          else [])
-        ++ (if bit m d_tag_forms then tag_forms false true else []) in
+        ++ (if bit m d_tag_forms then tag_forms tyh false true else []) in
   let g5 := g3 ++ map (fun e => (n_type2, e)) extra_t2 in
   (* group rules: with "=" the entry must not start like a type *)
   let np := if bit m d_paren_entry then ALook (fun r => negb (starts (N.eqb 40) r)) else AEps in
@@ -185,13 +197,7 @@ Definition variant (m : N) : cfg :=
                         AAlt (ASeqs [L "."; R n_fraction]) (ALook (fun r => negb (frac_follows r)));
                         AAlt (ASeqs [L "e"; R n_exponent]) (ALook (fun r => negb (exp_follows r)))]] g7
             else g7 in
-  (* member keys *)
-  let g9 := if bit m d_bytes_key then
-              override n_memberkey
-                [ASeqs [R n_type1; S_; AOpt (ASeqs [L "^"; S_]); L "=>"];
-                 ASeqs [R n_bareword; S_; L ":"];
-                 ASeqs [AAlts [R n_number; R n_text]; S_; L ":"]] g8
-            else g8 in
+  let g9 := g8 in
   (* implicit skips (the type2 ones are above) *)
   let g10 := if bit m d_implicit_ws then
                g9 ++ [(n_rule, ASeqs [R n_typename; S_; R n_genericparm; S_; R n_assignt; S_; R n_type]);
@@ -224,6 +230,22 @@ Definition variant (m : N) : cfg :=
                        (n_SESC, ASeqs [AChr 92; AChr 117; L "{"; APlus (R n_HEXDIG); L "}"])]
              else g11 in
   g12.
+
+(* The byte-string member key is rejected by the BRIDGE (and a key written h'..' / b64'..' is not even parsed as a key:
+   the bareword alternative of member_key takes the h / b64), but the bridge never converts the type inside the
+   "<" ">" of a non-literal tag number.  So with this deviation the grammar has two copies: the converted one with
+   memberkey = type1 "=>" / bareword ":" / (number / text) ":", and, below every "<" type ">" of a tag, an unconverted
+   copy (rule names + 1000) with the full memberkey. *)
+Definition variant (m : N) : cfg :=
+  if m =? 0 then abnf_spec
+  else if bit m d_bytes_key then
+    override n_memberkey
+      [ASeqs [R n_type1; S_; AOpt (ASeqs [L "^"; S_]); L "=>"];
+       ASeqs [R n_bareword; S_; L ":"];
+       ASeqs [AAlts [R n_number; R n_text]; S_; L ":"]]
+      (variant_core m (R (n_type + unconverted)))
+    ++ rename_cfg unconverted (variant_core m (R n_type))
+  else variant_core m (R n_type).
 
 (* derivability in the variant selected by the mask; mask 0 = the specification C03 compares against
    (RFC + documented leniencies, names as maximal tokens) *)
